@@ -448,14 +448,6 @@ def classify(name, c, what="matrix"):
             return "dft-inv-padded"
     if name in ("AngularSpectrumPropagator", "FresnelPropagator") and c.get("pad_factor", 1) > 1:
         return "dft-inv-padded"
-    if name in ("PolarGradient", "CylindricalGradient", "SphericalGradient") and c["center"] is not None:
-        # the constructor samples the positions with a float-valued range ogrid[-c : n - c]: one sample too many for some centres
-        nax = 2 if name != "SphericalGradient" else 3
-        axes = list(range(3 if name != "PolarGradient" else 2)) if c["axes"] is None else c["axes"]
-        for k in range(nax):
-            n, cen = c["shape"][axes[k]], np.float64(c["center"][k])
-            if len(np.arange(-cen, np.float64(n) - cen)) != n:
-                return "projgrad-center-grid-length"
     if name == "ProjectedGradient" and c["cdiff"] and c["coord"] is not None:
         nax = len(c["shape"]) if c["axes"] is None else len(c["axes"])
         if nax == 1:
@@ -465,6 +457,11 @@ def classify(name, c, what="matrix"):
 
 # --------------------------------------------------------------------------
 # the property oracle on the implementation
+
+
+def _nshape(v):
+    """(nested) shape as tuples of ints"""
+    return tuple(_nshape(b) for b in v) if isinstance(v, (tuple, list)) and len(v) and isinstance(v[0], (tuple, list)) else tuple(int(t) for t in v)
 
 
 def make_oracle(rng_seed=12345):
@@ -501,9 +498,9 @@ def make_oracle(rng_seed=12345):
                 y = opgrid.flat(yraw)
             except Exception as e:  # noqa: BLE001
                 return {"class": name, "config": c, "x": [str(v) for v in x], "evaluation_raised": repr(e)[:300]}
-            if what != "inverse" and not opgrid._is_nested(op.output_shape) and hasattr(yraw, "shape") and tuple(yraw.shape) != tuple(op.output_shape):
-                return {"class": name, "config": c, "x": [str(v) for v in x.tolist()], "returned_shape": list(yraw.shape),
-                        "declared_output_shape": [int(v) for v in op.output_shape]}
+            if what != "inverse" and hasattr(yraw, "shape") and str(_nshape(yraw.shape)) != str(_nshape(op.output_shape)):
+                return {"class": name, "config": c, "x": [str(v) for v in x.tolist()], "returned_shape": str(yraw.shape),
+                        "declared_output_shape": str(op.output_shape)}
             want = D @ x
             if y.shape != want.shape or not _close(y, want, tol):
                 return {"class": name, "config": c, "check": what, "x": [str(v) for v in x.tolist()],
@@ -622,6 +619,16 @@ def dtype_check(ctx, oracle, name, c, op, case):
         y = op(opgrid.unflat(x.ravel(), op.input_shape, op.input_dtype))
     except Exception:  # noqa: BLE001  (reported by the matrix comparison)
         return True
+    # container and shape of the returned value = declared output_shape (BlockArray: the tuple of block shapes)
+    def _shp(v):
+        return tuple(_shp(b) for b in v) if isinstance(v, (tuple, list)) and v and isinstance(v[0], (tuple, list)) else tuple(int(t) for t in v)
+
+    if hasattr(y, "shape"):
+        ctx.count("returned-shape-checked")
+        if _shp(y.shape) != _shp(op.output_shape):
+            ctx.disagree(f"linops.{name}.returned_shape", case, str(y.shape), str(op.output_shape), oracle=oracle, known_id=classify(name, c),
+                         note="shape / container (array vs BlockArray) of the returned value differs from the declared output_shape")
+            return False
     got = np.dtype(opgrid.flat(y).dtype)
     decl = np.dtype(op.output_dtype)
     if name in ("CircularConvolve", "Convolve", "ConvolveByX"):
@@ -1011,7 +1018,6 @@ def _axes_oracle(case):
 
 
 KNOWN_WITNESSES = {
-    "projgrad-center-grid-length": ("PolarGradient", {"shape": [6, 6], "axes": None, "center": [-2.21, 0.556], "angular": True, "radial": True, "cdiff": False, "dtype": "float64"}, "matrix"),
     "dft-inv-padded": ("DFT", {"shape": [4], "axes": None, "axes_shape": [8], "norm": None}, "inverse"),
     "projgrad-cdiff-single-axis": ("ProjectedGradient", {"shape": [4], "axes": [0], "coord": [{"array": {"shape": [1, 4], "re": [0.0, 0.25, 1.5, 0.625], "im": None}}], "cdiff": True, "dtype": "float64"}, "matrix"),
 }
